@@ -119,15 +119,54 @@ Proof.
     + now apply Hs.
 Qed.
 
-(* 5. update_parameter with every parameter trainable: parameter i receives exactly its slice of the
-      step (offset = number of elements of the parameters before it) ... *)
+(* 5. MAIN (repaired source, a845d9f).  update_parameter returns exactly when the step has one entry per
+      element of the TRAINABLE parameters; then trainable parameter i receives exactly its slice of the
+      trainable-only split (offset = elements of the trainable parameters before it) and every parameter
+      with requires_grad = False stays untouched ... *)
 Theorem C07_update_split : forall (ps : list (@param R)) step,
-  forallb (@preq R) ps = true -> length step = sumnat (map (@pnumel R) ps) ->
+  length step = sumnat (map (@pnumel R) (filter (@preq R) ps)) ->
   exists ps', update_parameter gexp ps step = Some ps' /\ length ps' = length ps /\
     forall i, (i < length ps)%nat ->
       nth i ps' pdflt =
-      param_add gexp (nth i ps pdflt) (firstn (pnumel (nth i ps pdflt)) (skipn (offset ps i) step)).
+      if preq (nth i ps pdflt)
+      then param_add gexp (nth i ps pdflt) (firstn (pnumel (nth i ps pdflt)) (skipn (toffset ps i) step))
+      else nth i ps pdflt.
 Proof. exact (update_split gexp). Qed.
+Theorem C07_update_returns_iff : forall (ps : list (@param R)) step,
+  (exists ps', update_parameter gexp ps step = Some ps') <->
+  length step = sumnat (map (@pnumel R) (filter (@preq R) ps)).
+Proof. exact (update_returns_iff gexp). Qed.
+
+(* ... and the system that is solved is the one in the trainable columns: the flattened Jacobian of a
+   residual is the unfiltered flattening of the blocks of the trainable parameters; the blocks modjac
+   returns for frozen parameters do not enter *)
+Theorem C07_jacobian_has_trainable_columns : forall (Jr : list (list R)) (ps : list (@param R)),
+  length Jr = length ps ->
+  flatten_row_jacobian Jr ps = flatten_row_jacobian_old (trainable_blocks Jr ps) (filter (@preq R) ps) /\
+  (forall Jr', length Jr' = length ps ->
+     (forall i, preq (nth i ps pdflt) = true -> nth i Jr [] = nth i Jr' []) ->
+     flatten_row_jacobian Jr ps = flatten_row_jacobian Jr' ps) /\
+  (forallb (@preq R) ps = true -> flatten_row_jacobian Jr ps = flatten_row_jacobian_old Jr ps).
+Proof.
+  intros Jr ps H. split; [now apply flatten_trainable_columns|]. split.
+  - intros Jr' H' Hag. now apply flatten_frozen_irrelevant.
+  - apply flatten_all_trainable.
+Qed.
+
+(* a GN step with frozen parameters: it happens as soon as the solver answers the (trainable-column) system
+   with one entry per column, moves every trainable parameter by its slice and leaves the frozen ones *)
+Theorem C07_gn_step_with_frozen : forall (pb : @problem R) Rv W J D,
+  assemble corr pb = Some (Rv, W, J) ->
+  solver (fst (gn_system Rv W J)) (snd (gn_system Rv W J)) = Some D ->
+  length D = sumnat (map (@pnumel R) (filter (@preq R) (pbP pb))) ->
+  exists o, gn_step corr gexp solver pb = Some o /\ tD o = D /\ length (tP o) = length (pbP pb) /\
+    forall i, (i < length (pbP pb))%nat ->
+      nth i (tP o) pdflt =
+      if preq (nth i (pbP pb) pdflt)
+      then param_add gexp (nth i (pbP pb) pdflt)
+             (firstn (pnumel (nth i (pbP pb) pdflt)) (skipn (toffset (pbP pb) i) D))
+      else nth i (pbP pb) pdflt.
+Proof. exact (gn_step_returns corr gexp solver). Qed.
 
 (* ... Euclidean tensors by addition ... *)
 Theorem C07_add_euclid : forall (p : @param R) d, pk p = Euclid ->
@@ -163,8 +202,8 @@ Proof.
   - exact (add_item_extra_ignored gexp (Algebra g) x d d' H).
 Qed.
 
-(* 6. parameters with requires_grad = False are untouched by every update that returns (kinds and
-      flags of all parameters are kept) *)
+(* 6. parameters with requires_grad = False are untouched by every update that returns, whatever the step
+      (kinds and flags of all parameters are kept) *)
 Theorem C07_frozen_untouched : forall (ps : list (@param R)) step ps',
   update_parameter gexp ps step = Some ps' ->
   length ps' = length ps /\
@@ -172,43 +211,54 @@ Theorem C07_frozen_untouched : forall (ps : list (@param R)) step ps',
   map (@pk R) ps' = map (@pk R) ps /\ map (@preq R) ps' = map (@preq R) ps.
 Proof. exact (frozen_untouched gexp). Qed.
 
-(* 7. ... but on the faithful model this holds only because no step ever happens when a parameter is
-      frozen: modjac's Jacobian has a column for every parameter, the solver returns one entry per
-      column, and the split is given the sizes of the trainable parameters only *)
-Theorem C07_step_with_frozen_raises : forall (pb : @problem R),
+(* 7. HISTORY (the source before a845d9f, kept as _old definitions): no step ever happened when a parameter
+      was frozen: modjac's Jacobian had a column for every parameter, the solver returned one entry per
+      column, and the split was given the sizes of the trainable parameters only *)
+Theorem C07_old_step_with_frozen_raises : forall (pb : @problem R),
   (exists p, In p (pbP pb) /\ preq p = false /\ (0 < pnumel p)%nat) ->
   (forall A b D, solver A b = Some D -> length D = sumnat (map (@pnumel R) (pbP pb))) ->
-  gn_step corr gexp solver pb = None /\
-  forall Aprev JT Rv lam, exists r, lm_trial gexp solver Aprev JT Rv lam (pbP pb) = r /\ (r = TRaise \/ r = TSolverFailed).
+  gn_step_old corr gexp solver pb = None /\
+  forall Aprev JT Rv lam, exists r, lm_trial_old gexp solver Aprev JT Rv lam (pbP pb) = r /\ (r = TRaise \/ r = TSolverFailed).
 Proof.
   intros pb Hex Hlen. split.
-  - now apply gn_step_frozen_raises.
-  - intros Aprev JT Rv lam. eexists. split; [reflexivity|]. now apply lm_trial_frozen_raises.
+  - now apply gn_step_old_frozen_raises.
+  - intros Aprev JT Rv lam. eexists. split; [reflexivity|]. now apply lm_trial_old_frozen_raises.
 Qed.
 
-(* behind the raise: zip(params, steps) pairs ALL parameters with the slices of the TRAINABLE ones; given
-   one slice per trainable parameter, a trainable parameter that follows a frozen one is never updated *)
-Theorem C07_zip_pairs_all_params_with_trainable_slices : forall (p q : @param R) step,
+(* behind the old raise: zip(params, steps) paired ALL parameters with the slices of the TRAINABLE ones; given
+   one slice per trainable parameter, a trainable parameter that followed a frozen one was never updated;
+   the repaired update gives it its slice *)
+Theorem C07_old_zip_paired_all_params_with_trainable_slices : forall (p q : @param R) step,
   preq p = false -> preq q = true -> length step = pnumel q ->
-  update_parameter gexp [p; q] step = Some [p; q].
-Proof. exact (zip_misaligned gexp). Qed.
+  update_parameter_old gexp [p; q] step = Some [p; q] /\
+  update_parameter gexp [p; q] step = Some [p; param_add gexp q step].
+Proof.
+  intros p q step Hp Hq Hl. split; [now apply zip_misaligned_old | now apply zip_aligned_new].
+Qed.
 End C07.
 
 (* the clause "a GN step changes the (trainable) parameters by the least-squares solution while the
-   parameters with requires_grad = False are untouched" is REFUTED on the faithful model: for
-   r = a + c with c frozen, GaussNewton.step raises for every corrector table, every Exp and every
-   total solver; with c trainable the same step happens *)
-Theorem C07_gn_step_with_frozen_refuted :
+   parameters with requires_grad = False are untouched" was REFUTED on the model of the old source: for
+   r = a + c with c frozen, GaussNewton.step raised for every corrector table, every Exp and every total
+   solver ... *)
+Theorem C07_old_gn_step_with_frozen_refuted :
   exists pb : @problem R,
     (exists p, In p (pbP pb) /\ preq p = false) /\
     forall corr gexp solver,
       (forall A b, exists D, solver A b = Some D /\ length D = mcols A) ->
-      gn_step corr gexp solver pb = None.
+      gn_step_old corr gexp solver pb = None.
 Proof.
   exists frozen_pb. split.
   - exists {| pk := Euclid; pdata := [0]; preq := false |}. cbn. auto.
-  - exact frozen_pb_raises.
+  - exact frozen_pb_old_raises.
 Qed.
+(* ... and holds on the same witness for the repaired source: the system is the trainable column, a moves by
+   the solver's answer, c stays *)
+Theorem C07_gn_step_with_frozen_witness : forall corr gexp (solver : @mat R -> list R -> option (list R)) d,
+  solver [[1]] (vneg [1]) = Some [d] ->
+  exists o, gn_step corr gexp solver frozen_pb = Some o /\ tA o = [[1]] /\ tD o = [d] /\
+            map (@pdata R) (tP o) = [[0 + d]; [0]] /\ map (@preq R) (tP o) = [true; false].
+Proof. exact frozen_pb_steps. Qed.
 
 (* hypotheses are satisfiable / the step exists when nothing is frozen *)
 Example C07_gn_step_without_frozen : forall corr gexp (solver : @mat R -> list R -> option (list R)) d1 d2,
@@ -237,8 +287,12 @@ Print Assumptions C07_add_euclid.
 Print Assumptions C07_add_lietensor.
 Print Assumptions C07_extra_slot_ignored.
 Print Assumptions C07_frozen_untouched.
-Print Assumptions C07_step_with_frozen_raises.
-Print Assumptions C07_zip_pairs_all_params_with_trainable_slices.
-Print Assumptions C07_gn_step_with_frozen_refuted.
+Print Assumptions C07_update_returns_iff.
+Print Assumptions C07_jacobian_has_trainable_columns.
+Print Assumptions C07_gn_step_with_frozen.
+Print Assumptions C07_old_step_with_frozen_raises.
+Print Assumptions C07_old_zip_paired_all_params_with_trainable_slices.
+Print Assumptions C07_old_gn_step_with_frozen_refuted.
+Print Assumptions C07_gn_step_with_frozen_witness.
 Print Assumptions C07_gn_step_without_frozen.
 Print Assumptions C07_solver_contract_satisfiable.
